@@ -1,11 +1,10 @@
 SPECIFICATION Spec
 CONSTANTS
-  MaxLen = 2
-  InitLevel = "reduced"
+  MaxLen = 1
+  InitLevel = "full"
   OpsLevel = "all"
   Limit = 20000
-  Emit = TRUE
-CONSTRAINT EmitState
+  Emit = FALSE
 INVARIANT Inv_TransposeInvolution Inv_ProductTranspose Inv_IdentityNeutral Inv_MatVecIsProduct Inv_Associative
 INVARIANT Inv_Congruence Inv_Scaling Inv_Sampling Inv_Inverse Inv_Rational
 PROPERTY SolveLaw InvertLaw KronLaw
